@@ -1,6 +1,160 @@
-(** C09 -- statements only. *)
-From InvokeVerif Require Import Model.SigCtxModel Spec.C09Spec Proofs.C09_sig.
+(** C09 -- a task signature maps to a well-formed CLI whose parsed values
+    always bind.  Statements only; proofs in Proofs/C09_*.v.
 
-Theorem C09_arg_name_is_param_name :
-  forall dc pos p taken, arg_name (arg_opts dc pos p taken) = p_name p.
-Proof. exact arg_name_arg_opts. Qed.
+    Model: Model/SigModel.v (Task.arg_opts / get_arguments) and
+    Model/SigCtxModel.v (ParserContext.add_arg tables, as_kwargs, bind).
+    Guards (Spec/C09Spec.v): [wf_sig] = distinct ASCII identifiers whose dashed
+    forms are pairwise distinct; [all_have_core], [no_steal], [no_inverse_clash]
+    delimit the three known findings F-C09b/c/d. *)
+From InvokeVerif Require Import Model.SigCtxModel Spec.C09Spec
+     Proofs.C09_facts Proofs.C09_sig Proofs.C09_ctx Proofs.C09_wf Proofs.C09_main
+     Proofs.C09_order Proofs.C09_bounded.
+From Coq Require Import Permutation.
+
+(** Exactly one argument per parameter, for every signature. *)
+Theorem C09_one_arg_per_param :
+  forall s, Permutation (map arg_name (get_arguments s)) (map p_name (s_params s)).
+Proof. exact one_arg_per_param. Qed.
+
+(** The main name is the dashed parameter name and its flag is the documented
+    long flag, for every signature. *)
+Theorem C09_long_flag :
+  forall s a, In a (get_arguments s) ->
+    main_of a = dashed (arg_name a) /\ to_flag (main_of a) = long_flag (arg_name a).
+Proof. exact long_flag_of_arg. Qed.
+
+(** ... which is well-formed as soon as the name has a non-underscore
+    character.  Missing for full strength: names made of underscores only. *)
+Theorem C09_long_flag_wellformed_partial :
+  forall n, has_core n = true ->
+    (exists c, long_flag n = String "-" (String c EmptyString)) \/
+    (exists d, long_flag n = ("--" ++ d)%string /\ 2 <= String.length d).
+Proof. exact long_flag_wellformed. Qed.
+
+(** F-C09b: the parameter [_] is accepted and its only flag is "--". *)
+Theorem C09_long_flag_wellformed_refuted :
+  wf_sig sig_underscore = true /\
+  exists o, sig_cli sig_underscore = Ok o /\ map fst (o_flags o) = ["--"] /\
+            flags_wellformed sig_underscore o = false.
+Proof. exact underscore_refutes. Qed.
+
+(** At most one auto-assigned short flag: one character of the dashed name,
+    never the dash. *)
+Theorem C09_at_most_one_short :
+  forall s a, In a (get_arguments s) ->
+    a_names a = [main_of a] \/
+    exists c, a_names a = [main_of a; String c EmptyString] /\ Ascii.eqb c dash = false /\
+              String c EmptyString <> main_of a /\ contains_char c (main_of a) = true.
+Proof. exact at_most_one_short. Qed.
+
+(** All flag spellings (long and short) of an accepted well-formed signature
+    are pairwise distinct -- full strength under [wf_sig] since the '-' repair. *)
+Theorem C09_flags_distinct :
+  forall s o, wf_sig s = true -> sig_cli s = Ok o -> NoDup (all_spellings o).
+Proof. exact flags_distinct_thm. Qed.
+
+(** A well-formed signature is accepted.  Missing for full strength: names
+    like [_a]/[b_] after a parameter whose auto short flag is that letter. *)
+Theorem C09_accepted_partial :
+  forall s, wf_sig s = true -> no_steal s = true -> exists o, sig_cli s = Ok o.
+Proof. exact accepts. Qed.
+
+(** F-C09c: (ab, _a) is well-formed yet refused with ValueError. *)
+Theorem C09_accepted_refuted :
+  wf_sig sig_steal = true /\ all_have_core sig_steal = true /\ sig_cli sig_steal = Err EValue.
+Proof. exact steal_refutes. Qed.
+
+(** F-C09d: with the inverse forms counted, flag names are not distinct:
+    (a=True, no_a=False) has "--no-a" twice. *)
+Theorem C09_flags_distinct_with_inverse_refuted :
+  wf_sig sig_inverse = true /\ all_have_core sig_inverse = true /\ no_steal sig_inverse = true /\
+  exists o, sig_cli sig_inverse = Ok o /\ flags_distinct o = false /\
+            In "--no-a" (map fst (o_flags o)) /\ In "--no-a" (map fst (o_inverse o)).
+Proof. exact inverse_refutes. Qed.
+
+(** The tables of an accepted well-formed signature, in closed form: one real
+    flag per argument, one alias per short flag, one inverse form per
+    default-true boolean, positionals in argument order. *)
+Theorem C09_tables_closed_form :
+  forall s c, wf_sig s = true -> add_args empty_ctx (get_arguments s) = Ok c ->
+    good (get_arguments s) /\ c = T (get_arguments s).
+Proof. exact sig_ctx_ok_closed_form. Qed.
+
+(** Positional arguments come first, in the order of the positional list. *)
+Theorem C09_positional_order :
+  forall s o, wf_sig s = true -> sig_cli s = Ok o ->
+    let pos := fill_implicit_positionals s in
+    NoDup pos -> incl pos (map p_name (s_params s)) ->
+    map arg_name (firstn (List.length pos) (o_args o)) = pos /\
+    o_positional o = map dashed pos.
+Proof. exact positional_order. Qed.
+
+(** Unless the task says otherwise: parameters without default, declaration order. *)
+Theorem C09_implicit_positional_order :
+  forall s o, wf_sig s = true -> d_positional (s_deco s) = None -> sig_cli s = Ok o ->
+    map arg_name (firstn (List.length (no_default_names s)) (o_args o)) = no_default_names s /\
+    o_positional o = map dashed (no_default_names s).
+Proof. exact implicit_positional_order. Qed.
+
+(** Kinds: the default fixes the type (optional+bool and iterable being the
+    task "saying otherwise", see [expected_kind]); booleans take no value;
+    exactly the default-true booleans get an inverse form. *)
+Theorem C09_kinds :
+  forall s pos p taken k, expected_kind s p = Some k ->
+    a_kind (arg_opts (s_deco s) pos p taken) = k.
+Proof. exact kind_arg_opts. Qed.
+
+Theorem C09_bool_takes_no_value :
+  forall s pos p taken, expected_kind s p = Some KBool ->
+    takes_value (arg_opts (s_deco s) pos p taken) = false.
+Proof. exact bool_takes_no_value. Qed.
+
+Theorem C09_inverse_iff_default_true :
+  forall s pos p taken, is_true_bool (arg_opts (s_deco s) pos p taken) = wants_inverse s p.
+Proof. exact inverse_iff_default_true. Qed.
+
+(** kwargs: exactly the parameter names, and they bind. *)
+Theorem C09_kwargs_bind :
+  forall s o, wf_sig s = true -> sig_cli s = Ok o ->
+    o_kwargs o = map (fun a => (arg_name a, fresh_value a)) (get_arguments s) /\
+    Permutation (map fst (o_kwargs o)) (map p_name (s_params s)) /\
+    o_binds o = true.
+Proof. exact kwargs_bind. Qed.
+
+(** ... unmentioned parameters carry the function's default (or [] if list-type). *)
+Theorem C09_kwargs_values :
+  forall s o p, wf_sig s = true -> sig_cli s = Ok o -> In p (s_params s) ->
+    exists v, aget (p_name p) (o_kwargs o) = Some v /\
+      match p_default p with
+      | DEmpty => True
+      | d => v = to_aval d \/ (listish s p = true /\ v = AList [])
+      end.
+Proof. exact kwargs_values. Qed.
+
+(** Small-scope sweep of the complete executable specification (a test):
+    all 6486 guarded signatures among [small_sigs] (<= 2 parameters). *)
+Theorem C09_spec_bounded_2 :
+  forall s, In s small_sigs -> guard s = true -> spec_ok s (sig_cli s) = true.
+Proof. exact spec_bounded. Qed.
+
+(** Non-vacuity: a signature with shared prefixes, underscores, a default-true
+    boolean, a list and an explicit positional order satisfies every guard and
+    the whole specification. *)
+Example C09_example :
+  let s := mkSig [mkParam "foo_bar" DEmpty; mkParam "foo" (DBool true); mkParam "f" (DInt 3);
+                  mkParam "bar_" (DList ["x"]); mkParam "names" DNone]
+                 (mkDeco (Some ["f"; "foo_bar"]) ["f"] ["names"] [] true) in
+  guard s = true /\ spec_ok s (sig_cli s) = true /\
+  exists o, sig_cli s = Ok o /\
+    all_spellings o = ["-f"; "--foo-bar"; "--foo"; "--bar"; "--names"; "-o"; "-b"; "-n"] /\
+    o_inverse o = [("--no-foo", "--foo")] /\ o_positional o = ["f"; "foo-bar"].
+Proof.
+  cbv zeta. split; [vm_compute; reflexivity|]. split; [vm_compute; reflexivity|].
+  eexists. split; [vm_compute; reflexivity|]. split; [reflexivity|]. split; reflexivity.
+Qed.
+
+Example C09_dash_fix_example :
+  exists o, sig_cli (mkSig [mkParam "a" DEmpty; mkParam "a_b" DEmpty] deco0) = Ok o /\
+            all_spellings o = ["-a"; "--a-b"; "-b"] /\
+            spec_ok (mkSig [mkParam "a" DEmpty; mkParam "a_b" DEmpty] deco0) (Ok o) = true.
+Proof. exact dash_fix_example. Qed.
